@@ -114,9 +114,15 @@ def ob_mutate(name, tindex, kind, positions):
     t = tmpls[tindex]
     base = getattr(H, "wrapped", H)
     kw = ctxkw(H)
+    unwrapped = getattr(H, "_unwrap_hash", lambda x: x)(t)
     try:
-        orig = base.from_string(getattr(H, "_unwrap_hash", lambda x: x)(t), **(dict((k, v) for k, v in kw.items() if k in ("user", "realm"))
-                                                                              if "user" in getattr(base, "context_kwds", ()) and False else {}))
+        # parsed with the same context keywords verify() will pass (lmhash's encoding, user/realm of the digest formats)
+        orig = base.from_string(unwrapped, **dict((k, v) for k, v in kw.items() if k in getattr(base, "context_kwds", ())))
+    except TypeError:
+        try:
+            orig = base.from_string(unwrapped)
+        except Exception:
+            orig = None
     except Exception:
         orig = None
     good_chk = getattr(orig, "checksum", None)
@@ -124,6 +130,13 @@ def ob_mutate(name, tindex, kind, positions):
     triples = hashenv.env_triples(H)
 
     def calc(self_, secret, *a, **k):
+        alg = k.get("alg") or (a[0] if a else None)
+        if isinstance(good_chk, dict) and alg is not None:
+            # scram keeps one digest per algorithm and asks for them one at a time
+            g = good_chk.get(alg)
+            if orig is not None and g is not None and _settings_equal(self_, orig):
+                return g
+            return (g[:-1] + bytes([g[-1] ^ 1])) if g else b"\x00"
         if orig is not None and _settings_equal(self_, orig):
             return good_chk
         if isinstance(good_chk, str):
@@ -198,6 +211,8 @@ def ob_mutate(name, tindex, kind, positions):
                 bad = ("identify() does not answer True/False: %r" % (o["identify"],), p)
                 break
             v = o["verify"]
+            if name == "scram" and _scram_unconsulted(t, pos, kind):
+                continue       # by design: verify() consults one digest (the first of _verify_algs present); the others are not its input
             if v is True or (isinstance(v, SBool)):
                 # accepted: must be the original character or a documented re-encoding of the same digest bits
                 claim = (ch == ord(orig_ch)) if kind in ("sub", "bsub") else z3.BoolVal(False)
@@ -292,7 +307,7 @@ def replay_mutant(name, orig, mutated, as_bytes=False):
                 canon_o = H.from_string(orig).to_string() if hasattr(H, "from_string") else orig
             except Exception:
                 canon_m, canon_o = mutated, orig
-            if mutated.lower() == orig.lower() or (canon_m == canon_o and _pad_only(base, orig, mutated)):
+            if mutated.lower() == orig.lower() or (canon_m == canon_o and _pad_only(base, orig, mutated)) or _by_design(name, orig, mutated):
                 continue
             return "%s.verify accepts the altered hash %r (original %r)" % (name, mutated, orig)
     return False
@@ -303,7 +318,15 @@ def _pad_only(base, orig, mutated):
     if len(orig) != len(mutated):
         return False
     diff = [i for i in range(len(orig)) if orig[i] != mutated[i]]
-    return base.name.startswith("bcrypt") or "bcrypt" in base.name and len(diff) == 1
+    if not ("bcrypt" in base.name and len(diff) == 1):
+        return False
+    # bcrypt's 22-character salt and 31-character digest each end in a symbol with unused bits: only those two positions
+    cut = orig.rfind("$")
+    if base.name == "bcrypt_sha256" and orig.startswith("$bcrypt-sha256$v="):
+        tail = orig[cut + 1:]
+        prev = orig.rfind("$", 0, cut)
+        return diff[0] in (cut - 1, len(orig) - 1) and len(tail) == 31 and cut - prev - 1 == 22
+    return diff[0] in (cut + 22, len(orig) - 1)
 
 
 # ------------------------------------------------------------------ concrete mutations (finite)
@@ -359,6 +382,27 @@ def ob_concrete(names):
         return out
     return ok("%d hashers: %d truncations/deletions/duplications/affixes handled cleanly, none verifies" % (len(names), n), paths=n,
               verdict="finite-enumeration", nontrivial=False)
+
+
+def _scram_unconsulted(t, pos, kind):
+    """is this position inside the digest text of an algorithm scram.verify() does not consult?"""
+    from passlib.hash import scram
+    try:
+        body = t.split("$")[4]
+        start = len(t) - len(body)
+        present = [item.split("=")[0] for item in body.split(",")]
+        used = [a for a in scram._verify_algs if a in present][0]
+        off = start
+        for item in body.split(","):
+            alg, dig = item.split("=")
+            d0 = off + len(alg) + 1
+            d1 = d0 + len(dig)                 # digest text occupies [d0, d1)
+            if alg != used and (d0 <= pos < d1 or (kind == "ins" and d0 < pos < d1)):
+                return True
+            off += len(item) + 1
+    except Exception:
+        return False
+    return False
 
 
 def _by_design(name, orig, mutated):
